@@ -407,6 +407,18 @@ func genMergeFacts(out string, root *pkgFiles) {
 		writeFile(out, "MergeFacts.lean", sb.String())
 	}()
 	okAll := true
+	// a file render without a layout goes through Vue.Render with the template's variables as caller data (that is where the file's own
+	// front-matter is laid over them): the last statement of renderWithoutLayout is `return t.vue.Render(w, t.filename, t.stack.EnvMap())`
+	via := false
+	if fd := root.method("template", "renderWithoutLayout"); fd != nil && len(fd.Body.List) > 0 {
+		if rs, ok := fd.Body.List[len(fd.Body.List)-1].(*ast.ReturnStmt); ok && len(rs.Results) == 1 {
+			via = exprString(rs.Results[0]) == "t.vue.Render(w,t.filename,t.stack.EnvMap())"
+		}
+	} else {
+		fail("merge", fmt.Errorf("template.renderWithoutLayout not found"))
+	}
+	fmt.Fprintf(&sb, "/-- template.renderWithoutLayout renders through Vue.Render(w, t.filename, t.stack.EnvMap()) -/\ndef templateRendersViaVueRender : Bool := %s\n\n", b2l(via))
+	rep.Facts["merge.templateRendersViaVueRender"] = b2l(via)
 	// Fill
 	var fillOrder []string
 	if fd := root.method("template", "Fill"); fd != nil {
